@@ -35,6 +35,10 @@ type Program struct {
 	NumFuncs int // repo source functions with SSA bodies
 }
 
+// curProgram is the program of the build configuration being analysed (for helpers that match provenance
+// expressions and need the repository's own tables).
+var curProgram *Program
+
 func repoDir() string {
 	if d := os.Getenv("VERIF_REPO"); d != "" {
 		return d
